@@ -843,8 +843,18 @@ class Sim(object):
             self.log_op("send_fail", st, data)
             self.raise_broken(st, sending=True)
         if f and f.startswith("slow:"):
-            # the write takes (virtual) time - a full send buffer, a slow link - and then succeeds
-            self.now += float(f[5:])
+            # the write takes (virtual) time - a full send buffer, a slow link - and then succeeds ... on a BLOCKING
+            # socket.  On a socket that carries a timeout shorter than that, sendall() gives up after the timeout with
+            # part of the data out (as a real socket does)
+            secs = float(f[5:])
+            if st.timeout is not None and secs > st.timeout:
+                half = data[:max(1, len(data) // 2)]
+                self.now += st.timeout
+                self.log_op("send", st, half)
+                st.note_write(half)
+                self.log_op("send_fail", st, data[len(half):])
+                raise _real_socket.timeout("timed out")
+            self.now += secs
             f = None
         if f and f.startswith("partial_"):
             # sendall() got part of the data out before it failed (it cannot say how much): those bytes ARE on the wire
